@@ -938,6 +938,10 @@ func (tx *Tx) getHintIdxDataItemsWrapper(records Records, limitNum int, es Entri
 
 // FindTxIDOnDisk returns if txId on disk at given fid and txID.
 func (tx *Tx) FindTxIDOnDisk(fID, txID uint64) (ok bool, err error) {
+	if err := tx.checkTxIsClosed(); err != nil {
+		return false, err
+	}
+
 	var i uint16
 
 	filepath := tx.db.getBPTRootTxIDPath(int64(fID))
@@ -990,6 +994,10 @@ func (tx *Tx) FindTxIDOnDisk(fID, txID uint64) (ok bool, err error) {
 
 // FindOnDisk returns entry on disk at given fID, rootOff and key.
 func (tx *Tx) FindOnDisk(fID uint64, rootOff uint64, key, newKey []byte) (entry *Entry, err error) {
+	if err := tx.checkTxIsClosed(); err != nil {
+		return nil, err
+	}
+
 	var (
 		bnLeaf *BinaryNode
 		i      uint16
@@ -1030,6 +1038,10 @@ func (tx *Tx) FindOnDisk(fID uint64, rootOff uint64, key, newKey []byte) (entry 
 
 // FindLeafOnDisk returns binary leaf node on disk at given fId, rootOff and key.
 func (tx *Tx) FindLeafOnDisk(fID int64, rootOff int64, key, newKey []byte) (bn *BinaryNode, err error) {
+	if err := tx.checkTxIsClosed(); err != nil {
+		return nil, err
+	}
+
 	var i uint16
 	var curr *BinaryNode
 
